@@ -58,8 +58,8 @@ example : ∃ c h', cloneSim exS false false exH = (.ok c, h') ∧ Closed exS.re
 
 /-- Immediately after cloning: the original is untouched (every region that existed is as it was), and
 the clone holds the same values (`get_array` of every variable and period), the same known periods and
-the same entity structure (counts, ids, memberships, the role and the position of every member, the
-ordering map, which variables have a holder) and the same configuration (`opt_out_cache`,
+the same entity structure (counts, ids, memberships, the role and the position of every member, which
+variables have a holder) and the same configuration (`opt_out_cache`,
 `max_spiral_loops`, `memory_config`); every role-dependent read — `nb_persons(role)` of a group population, `persons.has_role(role)`,
 which goes back through the person population's own simulation — gives on the clone what it gives on the
 original. -/
@@ -143,7 +143,7 @@ theorem C13_clone_equal_initially (sys : Sys) (h : Heap) (s : Id) (tr dbg : Bool
       simp only [ofOption_some, pure_bind']
       obtain ⟨po, po', q1, q2, q3, q4, q5, qr, qp, _, q6, _⟩ := holder 0 l1 pp
       rw [bind_of_ok (rdPop_eq q2), bind_of_ok (rdPop_eq q1)]
-      simp only [pure_apply, PopObj.roles, PopObj.positions, PopObj.orderedMap, q3, q4, q5, q6, qr, qp]
+      simp only [pure_apply, PopObj.roles, PopObj.positions, q3, q4, q5, q6, qr, qp]
   · unfold roleCount
     rw [bind_of_ok (rdSim_eq hs'), bind_of_ok (rdSim_eq hs)]
     rcases look ent with ⟨n1, n2⟩ | ⟨pid, pid', p0, l1, l2, pp⟩
